@@ -249,7 +249,13 @@ class FilesystemOnionService(object):
             # released?!
             uploaded[0] = _await_descriptor_upload(config.tor_protocol, fhs, progress, await_all_uploads)
 
-        yield config.save()
+        try:
+            yield config.save()
+        except Exception:
+            # the service was not created: stop listening for its uploads
+            uploaded[0].addErrback(lambda _: None)
+            uploaded[0].cancel()
+            raise
         yield uploaded[0]
         return fhs
 
@@ -609,7 +615,13 @@ def _add_ephemeral_service(config, onion, progress, version, auth=None, await_al
         raise ValueError(
             "No newline or return characters allowed in ADD_ONION arguments"
         )
-    raw_res = yield config.tor_protocol.queue_command(cmd)
+    try:
+        raw_res = yield config.tor_protocol.queue_command(cmd)
+    except Exception:
+        # the service was not created: stop listening for its uploads
+        uploaded_d.addErrback(lambda _: None)
+        uploaded_d.cancel()
+        raise
     res = find_keywords(raw_res.split('\n'))
     try:
         onion._hostname = res['ServiceID'] + '.onion'
@@ -1174,7 +1186,13 @@ class FilesystemAuthenticatedOnionService(object):
             # released?!
             uploaded[0] = _await_descriptor_upload(config.tor_protocol, fhs, progress, await_all_uploads)
 
-        yield config.save()
+        try:
+            yield config.save()
+        except Exception:
+            # the service was not created: stop listening for its uploads
+            uploaded[0].addErrback(lambda _: None)
+            uploaded[0].cancel()
+            raise
         yield uploaded[0]
         return fhs
 
